@@ -62,16 +62,26 @@ pub(crate) fn run() -> Result<(), Error> {
         }
     }
     let cwd = env::current_dir()?;
+    let mut ood: Vec<String> = Vec::new();
     for mut f in targets {
         if !redo::is_dirty(&mut ptx, &mut f, &mut cb)?.is_clean() {
             let p = redo::relpath(env2.base().join(f.name()), &cwd)?;
-            println!(
-                "{}",
+            ood.push(
                 p.as_os_str()
                     .to_str()
                     .ok_or(anyhow!("could not get filename as UTF-8"))?
+                    .to_string(),
             );
         }
+    }
+    // Give the write lock back (nothing is committed) before printing: whoever
+    // reads our output may be slow (a pager, a full pipe), and every other
+    // redo command would have to wait for it, or give up with
+    // "database is locked".
+    drop(cb);
+    drop(ptx);
+    for p in ood {
+        println!("{}", p);
     }
     Ok(())
 }
